@@ -35,7 +35,8 @@ def t_slow_pickle(rng, d=None):
 
 def t_die(rng, delay=None):
     how, code = rng.choice(
-        [("sig", "SIGKILL"), ("sig", "SIGSEGV"), ("sig", "SIGTERM"), ("exit", 3), ("exit", 0), ("cexit", 7), ("sig", "SIGABRT")]
+        [("sig", "SIGKILL"), ("sig", "SIGSEGV"), ("sig", "SIGTERM"), ("exit", 3), ("exit", 0), ("cexit", 7), ("sig", "SIGABRT"), ("sig", 35), ("sig", 50),
+         ("exit", 255), ("sig", "SIGUSR2" if False else "SIGHUP")]
     )
     s = {"k": "die", "how": how, "code": code}
     if delay:
@@ -187,7 +188,7 @@ def _number(threads):
 def g_crash(rng):
     """C02: a pool that will suffer an abrupt worker death somewhere."""
     kind = "reusable" if rng.random() < 0.4 else "plain"
-    kw = {"max_workers": rng.randint(1, 5), "timeout": rng.choice([None, 0.2, 10]) if kind == "plain" else rng.choice([0.2, 10])}
+    kw = {"max_workers": rng.randint(1, 5), "timeout": rng.choice([None, 0.2, 0.1, 10]) if kind == "plain" else rng.choice([0.2, 0.1, 10])}
     if rng.random() < 0.25:
         kw["initializer"] = {"token": "tok"}
     n = rng.randint(4, 20)
@@ -195,9 +196,9 @@ def g_crash(rng):
     for i in range(n):
         r = rng.random()
         if r < 0.5:
-            ops.append({"op": "submit", "ex": "e", "task": t_ok(rng)})
+            ops.append({"op": "submit", "ex": "e", "task": t_ok(rng), "resubmit_on_break": rng.random() < 0.3})
         elif r < 0.8:
-            ops.append({"op": "submit", "ex": "e", "task": {"k": "sleep", "d": 0.05}})
+            ops.append({"op": "submit", "ex": "e", "task": {"k": "sleep", "d": 0.05}, "resubmit_on_break": rng.random() < 0.3})
         elif r < 0.9:
             ops.append({"op": "submit", "ex": "e", "task": t_raise(rng)})
         else:
@@ -210,6 +211,13 @@ def g_crash(rng):
             ops.insert(pos, {"op": "submit", "ex": "e", "task": t_breaking(rng)})
         else:
             ops.insert(pos, {"op": "kill", "ex": "e", "which": rng.randint(0, 4), "sig": rng.choice(["SIGKILL", "SIGTERM", "SIGSEGV"])})
+    second_wave = False
+    if kw["timeout"] is not None and kw["timeout"] <= 0.2 and rng.random() < 0.7:
+        # all workers idle out while the manager thread keeps running, then new submits spawn a second wave
+        second_wave = True
+        ops += [{"op": "wait", "futs": "all"}, {"op": "sleep", "d": round(4 * kw["timeout"], 3)}]
+        for i in range(rng.choice([1, 1, 2, 4])):
+            ops.append({"op": "submit", "ex": "e", "task": t_ok(rng) if rng.random() < 0.6 else {"k": "sleep", "d": 0.05}})
     ops += [
         {"op": "wait", "futs": "all"},
         {"op": "submit", "ex": "e", "task": t_ok(rng), "after": True},
@@ -217,7 +225,7 @@ def g_crash(rng):
         {"op": "shutdown", "ex": "e", "wait": True},
     ]
     prog = {"threads": _number([ops]), "end": "return"}
-    return prog, {"gen": "g_crash", "kind": kind, "kw": kw, "inline_death": inline < 0.35}
+    return prog, {"gen": "g_crash", "kind": kind, "kw": kw, "inline_death": inline < 0.35, "second_wave": second_wave}
 
 
 def g_route(rng):
@@ -278,6 +286,11 @@ def g_contain(rng):
             bads.append(t_bad_result_pickle(rng))
         else:
             bads.append(t_slow_pickle(rng, 0.05))
+    if rng.random() < 0.5:
+        # an argument that fails to pickle only after a large picklable prefix, followed (somewhere) by tasks with shared references
+        bads.append({"k": "ok", "x": 5, "arg": ["blob_then_bad", rng.choice([70000, 200000, 1000000]), rng.choice(["ZeroDivisionError", "ValueError"])]})
+        for _ in range(rng.randint(1, 3)):
+            tasks.insert(rng.randint(0, len(tasks)), ("good", {"k": "echo", "arg": ["shared", rng.choice([3, 50, 3000])]}))
     if flood:
         # more unsendable tasks in a row than the call queue has slots: a leaked slot would exhaust it
         slots = (2 * mw + 1) if kind == "plain" else 33
@@ -307,15 +320,29 @@ def g_drain(rng):
     kind = "reusable" if rng.random() < 0.35 else "plain"
     mw = rng.randint(1, 4)
     tmo = rng.choice([None, 0.2, 0.02]) if kind == "plain" else rng.choice([10, 0.2, 0.02])
-    kw = {"max_workers": mw, "timeout": tmo}
     n = rng.randint(3, 30)
     slow = rng.random() < 0.25
+    env = {}
+    family = rng.choice(["any", "any", "timeout_race", "timeout_race", "few_slots"])
+    if family == "timeout_race":
+        # workers idle out while submitted work is still being pickled by the feeder thread
+        tmo = rng.choice([0.02, 0.05])
+        mw = rng.choice([1, 1, 2])
+        slow = True
+        n = rng.randint(3, 6)
+    elif family == "few_slots":
+        # a reusable executor's call queue has 2*cpu_count()+1 slots whatever max_workers is: more workers than slots
+        kind = "reusable"
+        env = {"LOKY_MAX_CPU_COUNT": "1"}
+        mw = rng.randint(5, 8)
+        tmo = rng.choice([0.2, 0.3, 10])
+    kw = {"max_workers": mw, "timeout": tmo}
     ops = [{"op": "new", "ex": "e", "kind": kind, "kw": kw}]
     subs = []
     for i in range(n):
         r = rng.random()
-        if slow and r < 0.3:
-            t = t_slow_pickle(rng, rng.choice([0.03, 0.1]))
+        if slow and r < (0.7 if family == "timeout_race" else 0.3):
+            t = t_slow_pickle(rng, rng.choice([0.03, 0.1]) if family != "timeout_race" else round(tmo * rng.choice([1.5, 3, 5]), 3))
         elif r < 0.55:
             t = t_ok(rng)
         elif r < 0.85:
@@ -324,7 +351,13 @@ def g_drain(rng):
             t = t_raise(rng)
         subs.append({"op": "submit", "ex": "e", "task": t})
     position = rng.choice(["immediately", "mid", "after_done", "long_after"])
+    if family == "few_slots" and tmo < 1:
+        position = rng.choice(["after_done", "long_after", "at_timeout"])
     how = rng.choice(["shutdown_wait", "shutdown_nowait", "with", "del", "exit", "other_thread"])
+    if family == "timeout_race" and rng.random() < 0.4:
+        how = "exit"  # the manager thread has to respawn workers while the interpreter is already finalizing
+        position = rng.choice(["immediately", "mid"])
+
     if kind == "reusable" and how == "del":
         how = "exit"  # the module-level singleton keeps a reusable executor alive: del alone requests nothing
     pre = list(subs)
@@ -332,6 +365,9 @@ def g_drain(rng):
         pre.append({"op": "wait", "futs": "all"})
     elif position == "long_after":
         pre += [{"op": "wait", "futs": "all"}, {"op": "sleep", "d": (3 * tmo if tmo and tmo < 1 else 0.05)}]
+    elif position == "at_timeout":
+        # the request arrives just as the workers reach their idle timeout
+        pre += [{"op": "wait", "futs": "all"}, {"op": "sleep", "d": round(tmo * rng.choice([0.9, 1.0, 1.1]), 3)}]
     elif position == "mid":
         pre.insert(rng.randint(0, len(pre)), {"op": "sleep", "d": rng.choice([0.005, 0.03])})
     post_submit = {"op": "submit", "ex": "e", "task": {"k": "ok", "x": 0}, "post_shutdown": True}
@@ -357,7 +393,7 @@ def g_drain(rng):
     prog = {"threads": threads, "end": "return", "tail": tail}
     if barriers:
         prog["barriers"] = barriers
-    return prog, {"gen": "g_drain", "kind": kind, "kw": kw, "position": position, "how": how, "slow_pickle": slow}
+    return prog, {"gen": "g_drain", "kind": kind, "kw": kw, "position": position, "how": how, "slow_pickle": slow, "family": family, "env": env}
 
 
 def g_idle(rng):
@@ -383,6 +419,12 @@ def g_idle(rng):
         ops.append({"op": "sleep", "d": round(min(1.2, tmo * rng.choice([0.5, 1.0, 1.5, 3.0])), 4)})
         if kind == "reusable" and rng.random() < 0.3:
             ops.append({"op": "get_reusable", "ex": "e", "kw": dict(kw, max_workers=rng.randint(1, 6))})
+    if mw >= 2 and rng.random() < 0.5:
+        # a task that needs a sibling submitted after the idle workers have left: only completes if the pool is topped up again
+        ops += [{"op": "wait", "futs": "all"},
+                {"op": "submit", "ex": "e", "task": {"k": "rendezvous", "n": 2, "grp": "dep", "dir": "$RES", "patience": 15.0, "hold": 0.05}},
+                {"op": "sleep", "d": round(min(1.5, 4 * tmo + 0.05), 3)},
+                {"op": "submit", "ex": "e", "task": {"k": "rendezvous", "n": 2, "grp": "dep", "dir": "$RES", "patience": 15.0, "hold": 0.05}}]
     ops += [{"op": "wait", "futs": "all"}, {"op": "quiesce", "ex": ["e"]}]
     ending = rng.choice(["shutdown", "exit", "shutdown", "nowait"])
     if ending == "shutdown":
@@ -470,6 +512,10 @@ def g_par(rng):
                 ops.append({"op": "submit", "ex": "e", "task": t_ok(rng)})
         # saturating batch on a quiet executor
         ops.append({"op": "wait", "futs": "all"})
+        if tmo is not None and tmo < 1 and cur >= 2 and rng.random() < 0.5:
+            # partial expiry: one worker stays busy while its idle siblings time out; the next submits must top the pool up again
+            ops.append({"op": "submit", "ex": "e", "task": {"k": "sleep", "d": round(4 * tmo + 0.3, 3)}})
+            ops.append({"op": "sleep", "d": round(3 * tmo + 0.1, 3)})
         grp += 1
         for i in range(cur):
             ops.append({"op": "submit", "ex": "e", "task": {"k": "rendezvous", "n": cur, "grp": "g%d" % grp, "dir": "$RES", "patience": 20.0, "hold": 0.05}})
